@@ -14,7 +14,7 @@ from checks import common as c
 from checks import topogen as tg
 
 CHAINS = ['F80', 'F200', 'F460', 'F1000', 'F80_F60', 'F40_U_F30', 'U_F60', 'F80_E_F70', 'Efull_F100_Efull', 'Etype_F100_Egain',
-          'Evoa_F90_Edp', 'F200att', 'F100lumped', 'F80perfreq', 'R80_E', 'F80_R80', 'R30_U_F10', 'F0.05', 'Evoa_F100', 'Evoa_F70_F70', 'F200pmd']
+          'Evoa_F90_Edp', 'F200att', 'F20att', 'F100lumped', 'F80perfreq', 'R80_E', 'F80_R80', 'R30_U_F10', 'F0.05', 'Evoa_F100', 'Evoa_F70_F70', 'F200pmd']
 SIMS = {
     'default': {},
     'raman_p2': {'raman_params': {'flag': True, 'method': 'perturbative', 'order': 2, 'result_spatial_resolution': 10e3,
